@@ -65,6 +65,149 @@ Section WithClass.
 End WithClass.
 
 (** The entry points as a state machine: state = (schema in force, allow_unknown in force) *)
+(** ** Rejection at every depth (inline structure): a corrupted rules set rejects every rules set that contains it
+    at a recursion position of the documented grammar -- items members, keysrules / valuesrules, *of definitions,
+    allow_unknown rules sets, list-schema rules sets and the fields of dict-schemas -- hence, by induction on the
+    nesting, the whole schema.  [bad] = rejected whatever the fuel. *)
+Section Depth.
+  Variable K : vclass.
+  Variable rr sr : list (string * value).
+
+  Definition bad (in_of : bool) (seen : list string) (v : value) : Prop :=
+    forall fuel, wf_rules K rr sr fuel in_of seen v = false.
+
+  Lemma bad_parent in_of seen d (kv : key * value) :
+    In kv d ->
+    (forall f, (* the body of wf_rules at this pair, with fuel f for the recursive calls *)
+       wf_rules K rr sr (S f) in_of seen (VDict [kv]) = false) ->
+    bad in_of seen (VDict d).
+  Proof.
+    intros Hin Hb [|f]; [reflexivity|]. specialize (Hb f). cbn [wf_rules forallb] in Hb. rewrite andb_true_r in Hb.
+    cbn [wf_rules]. eapply forallb_false_in; [exact Hin|exact Hb].
+  Qed.
+
+  Lemma items_member_propagates in_of seen d l c :
+    In (KStr "items", VList l) d -> In (VDict c) l -> bad false seen (VDict c) -> bad in_of seen (VDict d).
+  Proof.
+    intros Hd Hl Hc. apply (bad_parent _ _ _ _ Hd). intro f. cbn [wf_rules forallb fst snd]. rewrite andb_true_r.
+    destruct (negb _); [reflexivity|]. cbn.
+    eapply forallb_false_in; [exact Hl|]. apply Hc.
+  Qed.
+
+  Lemma bulk_rules_propagates in_of seen d r c :
+    (r = "keysrules" \/ r = "valuesrules") ->
+    In (KStr r, VDict c) d -> bad false seen (VDict c) -> bad in_of seen (VDict d).
+  Proof.
+    intros Hr Hd Hc. apply (bad_parent _ _ _ _ Hd). intro f. cbn [wf_rules forallb fst snd]. rewrite andb_true_r.
+    destruct (negb _); [reflexivity|]. destruct Hr as [-> | ->]; cbn; apply Hc.
+  Qed.
+
+  Lemma of_definition_propagates in_of seen d op l c :
+    In op ["allof"; "anyof"; "noneof"; "oneof"] ->
+    In (KStr op, VList l) d -> In (VDict c) l -> bad true seen (VDict c) -> bad in_of seen (VDict d).
+  Proof.
+    intros Hop Hd Hl Hc. apply (bad_parent _ _ _ _ Hd). intro f. cbn [wf_rules forallb fst snd]. rewrite andb_true_r.
+    destruct (negb _); [reflexivity|].
+    cbn [In] in Hop. destruct Hop as [<-|[<-|[<-|[<-|[]]]]]; cbn;
+      (eapply forallb_false_in; [exact Hl|]; apply Hc).
+  Qed.
+
+  Lemma allow_unknown_propagates in_of seen d c :
+    In (KStr "allow_unknown", VDict c) d -> bad false seen (VDict c) -> bad in_of seen (VDict d).
+  Proof.
+    intros Hd Hc. apply (bad_parent _ _ _ _ Hd). intro f. cbn [wf_rules forallb fst snd]. rewrite andb_true_r.
+    destruct (negb _); [reflexivity|]. cbn. apply Hc.
+  Qed.
+
+  (* `schema`: the constraint is read as a mapping schema (field -> rules) or as a rules set; it is rejected when both
+     readings are *)
+  Lemma dict_schema_field_propagates in_of seen d fields k c :
+    In (KStr "schema", VDict fields) d -> In (k, VDict c) fields ->
+    bad false seen (VDict c) ->            (* the corrupted field rules *)
+    bad false seen (VDict fields) ->       (* `fields` is no rules set either (e.g. a field name is not a rule name) *)
+    bad in_of seen (VDict d).
+  Proof.
+    intros Hd Hf Hc Hr. apply (bad_parent _ _ _ _ Hd). intro f. cbn [wf_rules forallb fst snd]. rewrite andb_true_r.
+    destruct (negb _); [reflexivity|]. cbn. rewrite (Hr f), orb_false_r.
+    eapply forallb_false_in; [exact Hf|]. cbn [snd]. apply Hc.
+  Qed.
+
+  Lemma list_schema_propagates in_of seen d c :
+    In (KStr "schema", VDict c) d ->
+    bad false seen (VDict c) ->            (* the corrupted rules set *)
+    (forall f, forallb (fun kv => match snd kv with
+                                  | VDict _ => wf_rules K rr sr f false seen (snd kv)
+                                  | VStr n => if sin n seen then true
+                                              else match reg_lookup rr n with
+                                                   | Some d0 => wf_rules K rr sr f false (n :: seen) d0
+                                                   | None => false end
+                                  | _ => false end) c = false) ->   (* nor a mapping schema: some constraint is no rules set *)
+    bad in_of seen (VDict d).
+  Proof.
+    intros Hd Hc Hm. apply (bad_parent _ _ _ _ Hd). intro f. cbn [wf_rules forallb fst snd]. rewrite andb_true_r.
+    destruct (negb _); [reflexivity|]. cbn. rewrite (Hc f), orb_false_r. apply Hm.
+  Qed.
+
+  (* the closure: corrupted somewhere below *)
+  Inductive corrupted : bool -> list string -> value -> Prop :=
+  | c_here io seen v : bad io seen v -> corrupted io seen v
+  | c_items io seen d l c : In (KStr "items", VList l) d -> In (VDict c) l -> corrupted false seen (VDict c) -> corrupted io seen (VDict d)
+  | c_bulk io seen d r c : (r = "keysrules" \/ r = "valuesrules") -> In (KStr r, VDict c) d -> corrupted false seen (VDict c) ->
+                           corrupted io seen (VDict d)
+  | c_of io seen d op l c : In op ["allof"; "anyof"; "noneof"; "oneof"] -> In (KStr op, VList l) d -> In (VDict c) l ->
+                            corrupted true seen (VDict c) -> corrupted io seen (VDict d)
+  | c_allow_unknown io seen d c : In (KStr "allow_unknown", VDict c) d -> corrupted false seen (VDict c) -> corrupted io seen (VDict d)
+  | c_dict_schema io seen d fields k c : In (KStr "schema", VDict fields) d -> In (k, VDict c) fields ->
+                                         corrupted false seen (VDict c) -> bad false seen (VDict fields) -> corrupted io seen (VDict d)
+  | c_list_schema io seen d c : In (KStr "schema", VDict c) d -> corrupted false seen (VDict c) ->
+      (forall f, forallb (fun kv => match snd kv with
+                                    | VDict _ => wf_rules K rr sr f false seen (snd kv)
+                                    | VStr n => if sin n seen then true
+                                                else match reg_lookup rr n with
+                                                     | Some d0 => wf_rules K rr sr f false (n :: seen) d0
+                                                     | None => false end
+                                    | _ => false end) c = false) ->
+      corrupted io seen (VDict d).
+
+  Theorem corrupted_is_rejected io seen v : corrupted io seen v -> bad io seen v.
+  Proof.
+    induction 1 as [io seen v H|io seen d l c Hd Hl _ IH|io seen d r c Hr Hd _ IH|io seen d op l c Hop Hd Hl _ IH
+                   |io seen d c Hd _ IH|io seen d fields k c Hd Hf _ IH Hr|io seen d c Hd _ IH Hm].
+    - exact H.
+    - eapply items_member_propagates; eassumption.
+    - eapply bulk_rules_propagates; eassumption.
+    - eapply of_definition_propagates; eassumption.
+    - eapply allow_unknown_propagates; eassumption.
+    - eapply dict_schema_field_propagates; eassumption.
+    - eapply list_schema_propagates; eassumption.
+  Qed.
+
+  (* ... and the schema that holds it is not accepted *)
+  Theorem corruption_at_any_depth_rejects schema field d :
+    In (field, VDict d) schema -> corrupted false [] (VDict d) -> accepts K rr sr schema = false.
+  Proof.
+    intros Hin Hc. apply (ill_formed_field_rejects K rr sr schema field d Hin). apply corrupted_is_rejected. exact Hc.
+  Qed.
+
+  (* the base kinds of corruption are [bad] *)
+  Lemma unknown_rule_bad io seen d rule c :
+    In (KStr rule, c) d -> sin rule (k_validation_rules K) = false -> sin rule (k_normalization_rules K) = false ->
+    bad io seen (VDict d).
+  Proof. intros Hin H1 H2 [|f]; [reflexivity|]. eapply unknown_rule_rejected; eassumption. Qed.
+
+  Lemma unknown_type_bad io seen d t :
+    In (KStr "type", VStr t) d -> sin t (k_types K) = false -> bad io seen (VDict d).
+  Proof.
+    intros Hin Ht. apply (bad_parent _ _ _ _ Hin). intro f. cbn [wf_rules forallb fst snd]. rewrite andb_true_r.
+    destruct (negb _); [reflexivity|]. cbn. exact Ht.
+  Qed.
+
+  Lemma normalization_rule_in_of_bad seen d rule c :
+    In (KStr rule, c) d -> sin rule (k_validation_rules K) = false -> bad true seen (VDict d).
+  Proof. intros Hin H1 [|f]; [reflexivity|]. eapply normalization_rule_in_of_rejected; eassumption. Qed.
+End Depth.
+
+
 Section Entry.
   Variable K : vclass.
   Variable rr sr : list (string * value).
